@@ -37,6 +37,11 @@ Fails(e) ==
       extEmpty == e.ext = <<>>
   IN
   (IF o.res = "panic" THEN {"panic"} ELSE {})
+  \* "the alg consulted is the one encoded in the protected bytes that are signed": whatever reaches the key names the key's algorithm or none
+  \cup (LET kc == SelectSeq(o.calls, LAMBDA c : c.call \in {"Sign", "Verify"}) IN
+        IF \E i \in 1..Len(kc) : LET tb == TbsItem(kc[i].content) IN
+                                   Len(tb.xs) >= ProtPos(e) /\ AlgOfWireItem(tb.xs[ProtPos(e)]).kind = "int" /\ ~WireAlgIs(tb.xs[ProtPos(e)], e.alg)
+        THEN {"key-invoked-over-protected-bytes-naming-another-algorithm"} ELSE {})
   \cup (IF h.kind \in {"int", "uint"} /\ ~AlgEq(h, e.alg) /\ proceeds THEN {"proceeds-under-another-algorithm"} ELSE {})
   \cup (IF h.kind = "int" /\ ~AlgEq(h, e.alg) /\ o.res # "ErrAlgorithmMismatch" THEN {"mismatch-not-reported-as-ErrAlgorithmMismatch"} ELSE {})
   \cup (IF h.kind \in {"text", "invalid"} /\ proceeds THEN {"proceeds-with-non-integer-alg"} ELSE {})
